@@ -374,6 +374,12 @@ class APIConnection:
                 f"Error connecting to {addrs}: {last_exception}"
             ) from last_exception
 
+        if self.connection_state is CONNECTION_STATE_CLOSED:
+            # The connection was closed (ie. disconnect was called) right
+            # when the socket connected and before this task could be
+            # interrupted, _cleanup already ran and will not close the socket
+            sock.close()
+            raise ConnectionInterruptedError("Connection closed while connecting")
         self._socket = sock
         sock.setblocking(False)
         sock.setsockopt(socket.IPPROTO_TCP, socket.TCP_NODELAY, 1)
@@ -451,13 +457,18 @@ class APIConnection:
         # Set the frame helper right away to ensure
         # the socket gets closed if we fail to handshake
         self._frame_helper = fh
+        if self.connection_state is CONNECTION_STATE_CLOSED:
+            # The connection was closed while the transport was being
+            # created, _cleanup already ran without a frame helper to close
+            self._frame_helper = None
+            fh.close()
         handshake_handle = self._loop.call_at(
             self._loop.time() + HANDSHAKE_TIMEOUT,
             _handle_timeout,
-            self._frame_helper.ready_future,
+            fh.ready_future,
         )
         try:
-            await self._frame_helper.ready_future
+            await fh.ready_future
         except asyncio_TimeoutError as err:
             raise TimeoutAPIError(
                 f"Handshake timed out after {HANDSHAKE_TIMEOUT}s"
@@ -466,6 +477,7 @@ class APIConnection:
             raise HandshakeAPIError(f"Handshake failed: {err}") from err
         finally:
             handshake_handle.cancel()
+        self._raise_if_closed()
         self._set_connection_state(CONNECTION_STATE_HANDSHAKE_COMPLETE)
 
     async def _connect_hello_login(self, login: bool) -> None:
@@ -651,11 +663,23 @@ class APIConnection:
         new_exc.__cause__ = cause or ex
         return new_exc
 
+    def _raise_if_closed(self) -> None:
+        """Raise if the connection was closed while a connect phase was completing.
+
+        A disconnect or fatal error can land after the future a connect phase
+        is awaiting has completed but before the task is resumed; the interrupt
+        is too late to cancel the task then, and the phase must not carry on
+        with (and resurrect) a connection that is already closed.
+        """
+        if self.connection_state is CONNECTION_STATE_CLOSED:
+            raise ConnectionInterruptedError("Connection closed while connecting")
+
     async def _do_finish_connect(self, login: bool) -> None:
         """Finish the connection process."""
         await self._connect_init_frame_helper()
         self._register_internal_message_handlers()
         await self._connect_hello_login(login)
+        self._raise_if_closed()
         self._async_schedule_keep_alive(self._loop.time())
 
     async def finish_connection(self, *, login: bool) -> None:
